@@ -305,3 +305,37 @@ def ctx_nullable_grammar(rng):
     if "Opt2" in tails:
         prods.append(("Opt2", [["'n'"], []]))
     return prods, gr_text(prods)
+
+
+def unit_chain_grammar(rng):
+    """Deterministic LALR grammars in which one nonterminal is entered in one state from several
+    items with different continuations (so its closure items get their lookaheads in several
+    steps), sits on top of a chain of unit rules ending in a nullable rule, and is also used in a
+    second context: the shapes on which re-queuing of widened closure items and the final LALR
+    propagation both matter."""
+    depth = rng.randint(1, 3)
+    heads = rng.sample(["'p'", "'q'", "'r'"], rng.randint(2, 3))
+    tails = rng.sample(["'t'", "'u'", "'v'"], rng.randint(2, 3))
+    alts = []
+    for t in tails[: rng.randint(2, len(tails))]:
+        alts.append([heads[0], "B", t])
+    for h in heads[1:]:
+        if rng.random() < 0.7:
+            alts.append([h, "B", rng.choice(tails)])
+        else:
+            alts.append([h, "B", "W"])
+    if rng.random() < 0.3:
+        rng.shuffle(alts)
+    prods = [("S", alts)]
+    if any("W" in a for a in alts):
+        prods.append(("W", [[t] for t in tails[:2]]))
+    names = ["B", "C", "D", "E2"][: depth + 1]
+    for a, b in zip(names, names[1:]):
+        prods.append((a, [[b]] if rng.random() < 0.8 else [[b], ["'k'", b]]))
+    last = [["'e'"], []]
+    if rng.random() < 0.3:
+        last = [[], ["'e'"]]
+    if rng.random() < 0.3:
+        last.append(["'e'", "'e'"])
+    prods.append((names[-1], last))
+    return prods, gr_text(prods)
